@@ -155,7 +155,7 @@ def acceptCount (fuel : Nat) (p : Params α) (m : Nat) : Params α :=
   match p.count with
   | .dflt =>
     match resolveCount fuel p with
-    | .num n => if n ≤ m then { p with count := .num (Int.ofNat m) } else p
+    | .num n => if n ≤ m then { p with count := .num (m : Int) } else p
     | _ => p
   | _ => p
 
